@@ -266,19 +266,21 @@ Proof.
 Qed.
 
 Section Inv.
-  Variables (mn mx : Z).
+  Variables (mn mx : Z) (mass : Q).
   Hypothesis Hwin : (mn <= mx + 1)%Z.
 
   Definition condP (first : bool) (mnext k : Z) : bool :=
     (mn <=? k + mnext)%Z && (first || (k <=? mx)%Z).
 
-  Definition Inv (first : bool) (P : list (list (Z * Q))) (mnext : Z) (cur : list (Z * Q)) (bucket : Q)
+  (* [R] = rest[pos+1]: the total probability of the symbol words of the remaining rows *)
+  Definition Inv (first : bool) (P : list (list (Z * Q))) (mnext : Z) (R : Q) (cur : list (Z * Q)) (bucket : Q)
     : Prop :=
     sorted cur /\
     (forall k, In k (keys cur) -> condP first mnext k = true) /\
     (forall psi, meas cur psi == wsum P (fun l => ind (condP first mnext (Zsum l)) * psi (Zsum l))) /\
     (forall l, attain l P -> condP first mnext (Zsum l) = true -> In (Zsum l) (keys cur)) /\
-    bucket == (if first then 0 else PI_gt P mx).
+    bucket == (if first then 0 else PI_gt P mx * R) /\
+    (forall k, In k (keys cur) -> exists l, attain l P /\ Zsum l = k).
 
   Lemma condn_condP mnext' j : condn mn mx mnext' j = condP false mnext' j.
   Proof. reflexivity. Qed.
@@ -305,21 +307,21 @@ Section Inv.
       (Z.leb_spec mn (I + c + mnext')), (Z.ltb_spec mx I), first; cbn [andb orb ind]; try lra; lia.
   Qed.
 
-  Lemma step_inv first P mnext cur bucket irow (bg : list Q) mnext' nxt b' :
-    Inv first P mnext cur bucket ->
+  Lemma step_inv first P mnext R cur bucket irow (bg : list Q) mnext' R' nxt b' :
+    Inv first P mnext R cur bucket ->
     (0 <= mnext')%Z ->
     (forall c, In c irow -> (0 <= c)%Z /\ (c + mnext' <= mnext)%Z) ->
-    Qsum (map snd (combine irow bg)) == 1 ->
-    step_row NumQ mn mx mnext' irow bg cur bucket = (nxt, b') ->
-    Inv false (P ++ [combine irow bg]) mnext' nxt b'.
+    Qsum (map snd (combine irow bg)) == mass -> R == R' * mass ->
+    step_row NumQ mn mx mnext' R' irow bg cur bucket = (nxt, b') ->
+    Inv false (P ++ [combine irow bg]) mnext' R' nxt b'.
   Proof.
-    intros [V1 [V2 [V3 [V4 V5]]]] Hm' Hcells Hunit Hstep.
+    intros [V1 [V2 [V3 [V4 [V5 V6]]]]] Hm' Hcells Hunit HR Hstep.
     set (r := combine irow bg) in *.
     assert (Hr : forall cb, In cb r -> (0 <= fst cb)%Z /\ (fst cb + mnext' <= mnext)%Z).
     { intros [c b] Hcb. apply Hcells. unfold r in Hcb. apply in_combine_l in Hcb. exact Hcb. }
     unfold step_row in Hstep. fold r in Hstep.
-    destruct (rows_fold mn mx mnext' r cur [] bucket nxt b' Hstep) as [F1 [F2 [F3 F4]]].
-    split; [|split; [|split; [|split]]].
+    destruct (rows_fold mn mx mnext' R' r cur [] bucket nxt b' Hstep) as [F1 [F2 [F3 F4]]].
+    split; [|split; [|split; [|split; [|split]]]].
     - apply F3. constructor.
     - intros j Hj. apply F4 in Hj. destruct Hj as [[]|[kv [cb [_ [_ [_ Hc]]]]]].
       rewrite <- condn_condP. exact Hc.
@@ -349,47 +351,58 @@ Section Inv.
       assert (E : forall l, attain l P ->
                 push r (fun j => ind (mx <? j)%Z) (Zsum l) ==
                 ind (condP first mnext (Zsum l)) * push r (fun j => ind (condb mn mx mnext' j)) (Zsum l)
-                + (if first then 0 else ind (mx <? Zsum l)%Z)).
+                + (if first then 0 else mass * ind (mx <? Zsum l)%Z)).
       { intros l _. set (I := Zsum l). unfold push.
         rewrite <- (Qsum_scale_map (ind (condP first mnext I))).
-        assert (E1 : (if first then 0 else ind (mx <? I)%Z) ==
+        assert (E1 : (if first then 0 else mass * ind (mx <? I)%Z) ==
                      Qsum (map (fun cb : Z * Q => snd cb * (if first then 0 else ind (mx <? I)%Z)) r)).
         { rewrite (Qsum_eq_map _ (fun cb : Z * Q => (if first then 0 else ind (mx <? I)%Z) * snd cb));
             [|intros; lra].
-          rewrite Qsum_scale_map. change (fun cb : Z * Q => snd cb) with (@snd Z Q). rewrite Hunit. lra. }
+          rewrite Qsum_scale_map. change (fun cb : Z * Q => snd cb) with (@snd Z Q). rewrite Hunit.
+          destruct first; lra. }
         rewrite E1. rewrite <- Qsum_plus_map. apply Qsum_eq_map. intros cb Hcb.
         destruct (Hr cb Hcb) as [R1 R2].
         rewrite (bucket_term first mnext mnext' I (fst cb) Hm' R1 R2). lra. }
       rewrite (wsum_ext_in P _ _ E). rewrite wsum_plus. rewrite V5.
       destruct first.
       + rewrite wsum_zero. lra.
-      + unfold PI_gt. lra.
+      + rewrite wsum_scale. unfold PI_gt. rewrite HR. lra.
+    - intros j Hj. apply F4 in Hj. destruct Hj as [[]|[kv [cb [Hkv [Hcb [-> _]]]]]].
+      assert (Hk : In (fst kv) (keys cur)) by (unfold keys; apply in_map; exact Hkv).
+      destruct (V6 _ Hk) as [l [Hl El]].
+      exists (l ++ [fst cb]). split.
+      + apply attain_snoc; auto. apply in_map. exact Hcb.
+      + rewrite Zsum_app. cbn [Zsum]. lia.
   Qed.
 
-  (* the rows still to be processed, paired with the suffix maxima *)
-  Fixpoint chain (mnext : Z) (rm : list (list Z * Z)) : Prop :=
+  (* the rows still to be processed, paired with the suffix maxima and the rest factors *)
+  Fixpoint chain (mnext : Z) (R : Q) (rm : list (list Z * Z * Q)) : Prop :=
     match rm with
-    | [] => mnext = 0%Z
-    | (irow, m') :: r =>
-        (0 <= m')%Z /\ (forall c, In c irow -> (0 <= c)%Z /\ (c + m' <= mnext)%Z) /\ chain m' r
+    | [] => mnext = 0%Z /\ R == 1
+    | (irow, m', R') :: r =>
+        (0 <= m')%Z /\ (forall c, In c irow -> (0 <= c)%Z /\ (c + m' <= mnext)%Z) /\
+        R == R' * mass /\ chain m' R' r
     end.
 
-  Lemma dist_loop_inv (bg : list Q) : forall rm first P mnext cur bucket acc acc' cur' b',
-    Inv first P mnext cur bucket -> chain mnext rm ->
-    (forall x, In x rm -> Qsum (map snd (combine (fst x) bg)) == 1) ->
+  Lemma dist_loop_inv (bg : list Q) : forall rm first P mnext R cur bucket acc acc' cur' b',
+    Inv first P mnext R cur bucket -> chain mnext R rm ->
+    (forall x, In x rm -> Qsum (map snd (combine (fst (fst x)) bg)) == mass) ->
     dist_loop NumQ mn mx bg rm cur bucket acc = (acc', cur', b') ->
+    exists R1, R1 == 1 /\
     Inv (first && match rm with [] => true | _ => false end)
-        (P ++ map (fun x => combine (fst x) bg) rm) 0 cur' b'.
+        (P ++ map (fun x => combine (fst (fst x)) bg) rm) 0 R1 cur' b'.
   Proof.
-    induction rm as [|[irow m'] r IH]; intros first P mnext cur bucket acc acc' cur' b' HI Hch Hu H;
+    induction rm as [|[[irow m'] R'] r IH]; intros first P mnext R cur bucket acc acc' cur' b' HI Hch Hu H;
       cbn [dist_loop] in H.
-    - inversion H; subst. cbn [chain] in Hch. subst mnext. cbn [map]. rewrite app_nil_r, andb_true_r. exact HI.
-    - destruct (step_row NumQ mn mx m' irow bg cur bucket) as [nxt b] eqn:Es.
-      cbn [chain] in Hch. destruct Hch as [C1 [C2 C3]].
-      assert (HI' : Inv false (P ++ [combine irow bg]) m' nxt b).
-      { eapply step_inv; eauto. apply (Hu (irow, m')). left; reflexivity. }
-      specialize (IH false _ _ _ _ _ _ _ _ HI' C3 (fun x Hx => Hu x (or_intror Hx)) H).
-      cbn [andb] in IH. rewrite andb_false_r. cbn [map fst]. rewrite <- app_assoc in IH. exact IH.
+    - inversion H; subst. cbn [chain] in Hch. destruct Hch as [-> HR1]. exists R. split; [exact HR1|].
+      cbn [map]. rewrite app_nil_r, andb_true_r. exact HI.
+    - destruct (step_row NumQ mn mx m' R' irow bg cur bucket) as [nxt b] eqn:Es.
+      cbn [chain] in Hch. destruct Hch as [C1 [C2 [C3 C4]]].
+      assert (HI' : Inv false (P ++ [combine irow bg]) m' R' nxt b).
+      { eapply step_inv; eauto. apply (Hu (irow, m', R')). left; reflexivity. }
+      destruct (IH false _ _ _ _ _ _ _ _ _ HI' C4 (fun x Hx => Hu x (or_intror Hx)) H) as [R1 [HR1 IH']].
+      exists R1. split; [exact HR1|].
+      cbn [andb] in IH'. rewrite andb_false_r. cbn [map fst]. rewrite <- app_assoc in IH'. exact IH'.
   Qed.
 
   (* the first row *)
@@ -427,14 +440,14 @@ Section Inv.
              cbn [fst] in Hj. subst j. congruence.
   Qed.
 
-  Lemma init_row_inv maxs1 irow0 (bg : list Q) :
-    Inv true [combine irow0 bg] maxs1 (init_row NumQ mn maxs1 irow0 bg) 0.
+  Lemma init_row_inv maxs1 R irow0 (bg : list Q) :
+    Inv true [combine irow0 bg] maxs1 R (init_row NumQ mn maxs1 irow0 bg) 0.
   Proof.
     unfold init_row. set (r := combine irow0 bg).
     destruct (init_fold maxs1 r []) as [F1 [F2 F3]].
     assert (HcP : forall k, condP true maxs1 k = (mn <=? k + maxs1)%Z).
     { intros k. unfold condP. cbn [orb]. apply andb_true_r. }
-    split; [|split; [|split; [|split]]].
+    split; [|split; [|split; [|split; [|split]]]].
     - apply F2. constructor.
     - intros k Hk. apply F3 in Hk. destruct Hk as [[]|[cb [_ [_ Hc]]]]. rewrite HcP. exact Hc.
     - intros psi. rewrite F1. unfold meas at 1. cbn [map Qsum wsum]. rewrite Qplus_0_l.
@@ -443,16 +456,24 @@ Section Inv.
       cbn [Zsum] in *. rewrite Z.add_0_r in *. apply F3. right.
       apply in_map_iff in Hcin. destruct Hcin as [cb [<- Hcb]]. exists cb. rewrite HcP in Hc. auto.
     - reflexivity.
+    - intros k Hk. apply F3 in Hk. destruct Hk as [[]|[cb [Hcb [-> _]]]].
+      exists [fst cb]. split.
+      + constructor; [apply in_map; exact Hcb|constructor].
+      + cbn [Zsum]. lia.
   Qed.
 
   (* the final table *)
-  Lemma inv_dist_exact ir cur bucket :
-    Inv false ir 0 cur bucket -> dist_exact ir mn mx (fm_set (mx + 1)%Z bucket cur).
+  Lemma inv_dist_exact ir R cur bucket :
+    R == 1 -> Inv false ir 0 R cur bucket ->
+    dist_exact ir mn mx (fm_set (mx + 1)%Z bucket cur) /\
+    (forall k, In k (keys cur) -> exists l, attain l ir /\ Zsum l = k) /\
+    fm_set (mx + 1)%Z bucket cur = cur ++ [((mx + 1)%Z, bucket)].
   Proof.
-    intros [V1 [V2 [V3 [V4 V5]]]].
+    intros HR [V1 [V2 [V3 [V4 [V5 V6]]]]].
     assert (Hk : forall k, In k (keys cur) -> (mn <= k <= mx)%Z).
     { intros k Hk. apply V2 in Hk. unfold condP in Hk. cbn [orb] in Hk. apply andb_true_iff in Hk.
       destruct Hk as [A B]. apply Z.leb_le in A. apply Z.leb_le in B. lia. }
+    split; [|split; [exact V6|apply fm_set_snoc; intros j Hj; apply Hk in Hj; lia]].
     exists cur, bucket. split; [|split; [|split; [|split]]].
     - apply fm_set_snoc. intros j Hj. apply Hk in Hj. lia.
     - exact V1.
@@ -463,7 +484,7 @@ Section Inv.
       destruct (Z.eqb_spec (Zsum l) k) as [->|Hne]; simpl ind.
       + rewrite (V2 k Hin). simpl ind. lra.
       + lra.
-    - exact V5.
+    - rewrite V5, HR. lra.
     - intros l Hat Hr. apply (V4 l Hat). unfold condP. cbn [orb]. apply andb_true_iff. split; apply Z.leb_le; lia.
   Qed.
 
@@ -479,6 +500,13 @@ Proof.
   - rewrite E. cbn [hd]. exists (x + s)%Z, (s :: t). split; [reflexivity|]. cbn [length]. lia.
 Qed.
 
+Lemma rest_sums_cons mass n : exists s t, rest_sums NumQ mass n = s :: t /\ length t = n.
+Proof.
+  induction n as [|k [s [t [E L]]]]; cbn [rest_sums].
+  - exists 1, []. auto.
+  - rewrite E. cbn [hd]. exists (s * mass), (s :: t). split; [reflexivity|]. cbn [length]. lia.
+Qed.
+
 Lemma suffix_sums_nonneg l : (forall x, In x l -> (0 <= x)%Z) -> (0 <= hd 0%Z (suffix_sums l))%Z.
 Proof.
   induction l as [|x r IH]; intros H; cbn [suffix_sums hd]; [lia|].
@@ -492,21 +520,83 @@ Proof.
   assert (0 <= a)%Z by (apply H; left; auto). destruct (zmax_from_ge a r'). lia.
 Qed.
 
-Lemma chain_suffix (irows : list (list Z)) :
+Lemma chain_suffix mass (irows : list (list Z)) :
   Forall (fun r => forall c, In c r -> (0 <= c)%Z) irows ->
-  chain (hd 0%Z (suffix_sums (map zmax_of irows)))
-        (combine irows (tl (suffix_sums (map zmax_of irows)))).
+  chain mass (hd 0%Z (suffix_sums (map zmax_of irows))) (hd 1 (rest_sums NumQ mass (length irows)))
+        (combine (combine irows (tl (suffix_sums (map zmax_of irows))))
+                 (tl (rest_sums NumQ mass (length irows)))).
 Proof.
-  induction irows as [|irow rest IH]; intros F; cbn [map suffix_sums hd tl combine chain]; [reflexivity|].
-  inversion F as [|? ? F1 F2]; subst.
-  destruct (suffix_sums_cons (map zmax_of rest)) as [s [t [E L]]].
-  specialize (IH F2). rewrite E in *. cbn [hd tl combine chain] in *.
-  split; [|split].
-  - pose proof (suffix_sums_nonneg (map zmax_of rest)) as N. rewrite E in N. cbn [hd] in N. apply N.
-    intros x Hx. apply in_map_iff in Hx. destruct Hx as [r0 [<- Hr0]]. apply zmax_of_nonneg.
-    rewrite Forall_forall in F2. apply F2. exact Hr0.
-  - intros c Hc. split; [apply F1; exact Hc|]. pose proof (zmax_of_ge irow c Hc) as Hz. apply Z.add_le_mono_r. exact Hz.
-  - exact IH.
+  induction irows as [|irow rest IH]; intros F; cbn [map suffix_sums rest_sums length hd tl combine chain].
+  - split; reflexivity.
+  - inversion F as [|? ? F1 F2]; subst.
+    destruct (suffix_sums_cons (map zmax_of rest)) as [s [t [E L]]].
+    destruct (rest_sums_cons mass (length rest)) as [s' [t' [E' L']]].
+    specialize (IH F2). rewrite E, E' in *. cbn [hd tl combine chain NumQ n_mul n_one] in *.
+    split; [|split; [|split]].
+    + pose proof (suffix_sums_nonneg (map zmax_of rest)) as N. rewrite E in N. cbn [hd] in N. apply N.
+      intros x Hx. apply in_map_iff in Hx. destruct Hx as [r0 [<- Hr0]]. apply zmax_of_nonneg.
+      rewrite Forall_forall in F2. apply F2. exact Hr0.
+    + intros c Hc. split; [apply F1; exact Hc|]. pose proof (zmax_of_ge irow c Hc) as Hz.
+      apply Z.add_le_mono_r. exact Hz.
+    + reflexivity.
+    + exact IH.
+Qed.
+
+(* the K-1 symbol frequencies sum to 1 - (wildcard frequency): the total probability of
+   the symbols of one row as the code computes it *)
+Definition bg_mass (n : nat) (bg : list Q) : Prop := Qsum (firstn n bg) == 1 - last bg 0.
+
+Theorem distribution_exact_keys (G : geom) (bg : list Q) mn mx rowsq n :
+  distribution NumQ G bg mn mx = Ok rowsq ->
+  (2 <= length (g_int G))%nat ->
+  Forall (fun r => length r = n /\ forall c, In c r -> (0 <= c)%Z) (g_int G) ->
+  g_maxr G = map zmax_of (g_int G) ->
+  bg_mass n bg -> (n <= length bg)%nat -> (mn <= mx + 1)%Z ->
+  dist_exact (irows (g_int G) bg) mn mx (last rowsq []) /\
+  (forall k, In k (map fst (removelast (last rowsq []))) ->
+             exists l, attain l (irows (g_int G) bg) /\ Zsum l = k).
+Proof.
+  intros H Hlen Hcells Hmaxr Hunit Hn Hwin. unfold distribution in H.
+  destruct (g_int G) as [|irow0 irows0] eqn:Eint; [discriminate|].
+  rewrite Hmaxr in H. cbn [map suffix_sums length rest_sums] in H.
+  destruct (suffix_sums_cons (map zmax_of irows0)) as [s [t [E L]]].
+  set (mass := n_sub NumQ (n_one NumQ) (last bg (n_zero NumQ))) in *.
+  destruct (rest_sums_cons mass (length irows0)) as [s' [t' [E' L']]].
+  rewrite E, E' in H. cbn [hd] in H.
+  destruct (negb _); [discriminate|]. destruct (mx =? i64_max)%Z; [discriminate|].
+  cbn [nth skipn] in H.
+  destruct (dist_loop NumQ mn mx bg (combine (combine irows0 t) t') (init_row NumQ mn s irow0 bg) (n_zero NumQ) [])
+    as [[acc cur] bucket] eqn:Eloop.
+  inversion H; subst rowsq; clear H. rewrite last_last.
+  inversion Hcells as [|? ? [Hl0 Hc0] Hrest]; subst.
+  assert (Hnn : Forall (fun r => forall c, In c r -> (0 <= c)%Z) irows0).
+  { rewrite Forall_forall in *. intros r Hr. apply Hrest. exact Hr. }
+  pose proof (chain_suffix mass irows0 Hnn) as Hch. rewrite E, E' in Hch. cbn [hd tl] in Hch.
+  pose proof (init_row_inv mn mx s s' irow0 bg) as HI0.
+  assert (Hmass : mass == 1 - last bg 0) by reflexivity.
+  assert (Hu : forall x, In x (combine (combine irows0 t) t') ->
+                         Qsum (map snd (combine (fst (fst x)) bg)) == mass).
+  { intros [[r m'] R'] Hx. apply in_combine_l in Hx. apply in_combine_l in Hx. cbn [fst]. rewrite Forall_forall in Hrest.
+    destruct (Hrest r Hx) as [Hlr _]. rewrite map_snd_combine_firstn by lia. rewrite Hlr, Hmass. exact Hunit. }
+  cbn [n_zero NumQ] in Eloop.
+  destruct (dist_loop_inv mn mx mass Hwin bg _ _ _ _ _ _ _ _ _ _ _ HI0 Hch Hu Eloop) as [R1 [HR1 HI]].
+  rewrite map_length in L.
+  assert (Hflag : match combine (combine irows0 t) t' with [] => true | _ :: _ => false end = false).
+  { destruct irows0 as [|r1 rs]; [cbn [length] in Hlen; lia|]. destruct t; [cbn [length] in L; lia|].
+    destruct t'; [cbn [length] in L'; lia|]. reflexivity. }
+  rewrite Hflag in HI. cbn [andb] in HI.
+  assert (Hrows : [combine irow0 bg] ++ map (fun x : list Z * Z * Q => combine (fst (fst x)) bg)
+                                            (combine (combine irows0 t) t')
+                  = irows (irow0 :: irows0) bg).
+  { unfold irows. cbn [map app]. f_equal.
+    rewrite <- (map_map (fun x : list Z * Z * Q => fst (fst x)) (fun r => combine r bg)). f_equal.
+    clear -L L'. revert t t' L L'. induction irows0 as [|a r IH]; intros [|b t] [|b' t'] L L';
+      cbn [length] in L, L'; try lia; cbn; auto.
+    f_equal. apply IH; lia. }
+  rewrite Hrows in HI.
+  destruct (inv_dist_exact mn mx (irows (irow0 :: irows0) bg) R1 cur bucket HR1 HI) as [D1 [D2 D3]].
+  split; [exact D1|].
+  intros k Hk. apply D2. rewrite D3, removelast_last in Hk. exact Hk.
 Qed.
 
 Theorem distribution_exact (G : geom) (bg : list Q) mn mx rowsq n :
@@ -514,38 +604,23 @@ Theorem distribution_exact (G : geom) (bg : list Q) mn mx rowsq n :
   (2 <= length (g_int G))%nat ->
   Forall (fun r => length r = n /\ forall c, In c r -> (0 <= c)%Z) (g_int G) ->
   g_maxr G = map zmax_of (g_int G) ->
-  bg_unit n bg -> (n <= length bg)%nat -> (mn <= mx + 1)%Z ->
+  bg_mass n bg -> (n <= length bg)%nat -> (mn <= mx + 1)%Z ->
   dist_exact (irows (g_int G) bg) mn mx (last rowsq []).
 Proof.
-  intros H Hlen Hcells Hmaxr Hunit Hn Hwin. unfold distribution in H.
-  destruct (g_int G) as [|irow0 irows0] eqn:Eint; [discriminate|].
-  rewrite Hmaxr in H. cbn [map suffix_sums] in H.
-  destruct (suffix_sums_cons (map zmax_of irows0)) as [s [t [E L]]].
-  rewrite E in H. cbn [hd] in H.
-  destruct (negb _); [discriminate|]. destruct (mx =? i64_max)%Z; [discriminate|].
-  cbn [nth skipn] in H.
-  destruct (dist_loop NumQ mn mx bg (combine irows0 t) (init_row NumQ mn s irow0 bg) (n_zero NumQ) [])
-    as [[acc cur] bucket] eqn:Eloop.
-  inversion H; subst rowsq; clear H. rewrite last_last.
-  inversion Hcells as [|? ? [Hl0 Hc0] Hrest]; subst.
-  assert (Hnn : Forall (fun r => forall c, In c r -> (0 <= c)%Z) irows0).
-  { rewrite Forall_forall in *. intros r Hr. apply Hrest. exact Hr. }
-  pose proof (chain_suffix irows0 Hnn) as Hch. rewrite E in Hch. cbn [hd tl] in Hch.
-  pose proof (init_row_inv mn mx s irow0 bg) as HI0.
-  assert (Hu : forall x, In x (combine irows0 t) -> Qsum (map snd (combine (fst x) bg)) == 1).
-  { intros [r m'] Hx. apply in_combine_l in Hx. cbn [fst]. rewrite Forall_forall in Hrest.
-    destruct (Hrest r Hx) as [Hlr _]. rewrite map_snd_combine_firstn by lia. rewrite Hlr. exact Hunit. }
-  cbn [n_zero NumQ] in Eloop.
-  pose proof (dist_loop_inv mn mx Hwin bg _ _ _ _ _ _ _ _ _ _ HI0 Hch Hu Eloop) as HI.
-  assert (Hflag : match combine irows0 t with [] => true | _ :: _ => false end = false).
-  { rewrite map_length in L. destruct irows0 as [|r1 rs]; [cbn [length] in Hlen; lia|]. destruct t; [cbn [length] in L; lia|]. reflexivity. }
-  rewrite Hflag in HI. cbn [andb] in HI.
-  assert (Hrows : [combine irow0 bg] ++ map (fun x : list Z * Z => combine (fst x) bg) (combine irows0 t)
-                  = irows (irow0 :: irows0) bg).
-  { unfold irows. cbn [map app]. f_equal.
-    rewrite <- (map_map fst (fun r => combine r bg)). f_equal.
-    rewrite map_length in L. clear -L. revert t L. induction irows0 as [|a r IH]; intros [|b t] L; cbn [length] in L; try lia; cbn; auto.
-    f_equal. apply IH. lia. }
-  rewrite Hrows in HI.
-  apply inv_dist_exact. exact HI.
+  intros H1 H2 H3 H4 H5 H6 H7.
+  exact (proj1 (distribution_exact_keys G bg mn mx rowsq n H1 H2 H3 H4 H5 H6 H7)).
+Qed.
+
+(* every key of the table except the overflow key is the integer score of some word *)
+Theorem distribution_keys_attainable (G : geom) (bg : list Q) mn mx rowsq n :
+  distribution NumQ G bg mn mx = Ok rowsq ->
+  (2 <= length (g_int G))%nat ->
+  Forall (fun r => length r = n /\ forall c, In c r -> (0 <= c)%Z) (g_int G) ->
+  g_maxr G = map zmax_of (g_int G) ->
+  bg_mass n bg -> (n <= length bg)%nat -> (mn <= mx + 1)%Z ->
+  forall k, In k (map fst (removelast (last rowsq []))) ->
+            exists l, attain l (irows (g_int G) bg) /\ Zsum l = k.
+Proof.
+  intros H1 H2 H3 H4 H5 H6 H7.
+  exact (proj2 (distribution_exact_keys G bg mn mx rowsq n H1 H2 H3 H4 H5 H6 H7)).
 Qed.
